@@ -44,15 +44,16 @@ MANIFEST = dict(
                 "chunk with one decompressor) and every segmentation of the upload into raw reads, the remote assembles "
                 "exactly the client's (name, source bytes) list in order and consumes exactly the upload (C18_framing, "
                 "C18_connect_assembles); the packaged bytes are the file's bytes (C18_source_bytes); rendering options "
-                "with %r and evaluating them remotely returns the same bool/int/None/str values (C18_options); the "
+                "with %r, encoding as UTF-8, decoding and evaluating them remotely returns the same bool/int/None/str values "
+                "(C18_options, C18_options_wire); the "
                 "client writes only content and content2 before the init string is accepted (C18_nothing_before_sync). "
                 "The model is tied to the code on every run by differential runs of the real functions and the real "
                 "assembler source, plus an oracle on the real code (thorough: through a real child interpreter)."),
     level_note=("Trusted: Lean kernel; axioms propext/Classical.choice/Quot.sound only; the correspondence harness; zlib "
-                "(abstract law, exercised concretely by the harness); Python's compile/exec, str.isprintable and the "
-                "UTF-8 codec of the interpreter; the remote shell command line and its quoting are outside. "
-                "C18_source_bytes holds for the binary-mode read (proposed fix C18-binary-source-read); the text-mode "
-                "read translated CR and depended on the locale (C18_textmode_read_false)."),
+                "(abstract law, exercised concretely by the harness); Python's compile/exec and str.isprintable (the option "
+                "theorems hold for every set of non-printable code points); the remote shell command line and its quoting "
+                "are outside. C18_source_bytes holds for the binary-mode read (proposed fix C18-binary-source-read); the "
+                "text-mode read translated CR and depended on the locale (C18_textmode_read_false, C18_source_bytes_partial)."),
     technique="Lean 4 proof (induction over the module list, refinement to the flat stream) + differential correspondence with the real packaging and assembler code",
 )
 DRIVER_TARGETS = ['SshuttleModel.Code.Bootstrap']
@@ -60,7 +61,7 @@ ASSUMPTIONS = [
     "zlib: chunks produced by one compressobj with Z_SYNC_FLUSH, fed one per call to one decompressobj, yield the inputs chunk by chunk",
     "the remote stdin is a blocking buffered binary reader: read(n) returns n bytes unless the stream ends; raw reads return arbitrary non-empty prefixes",
     "module sources compile on the remote interpreter; compile/exec themselves are outside the model",
-    "str.isprintable / the UTF-8 codec agree between the two interpreters (same Unicode database for the characters used in option strings)",
+    "str.isprintable agrees between the two interpreters for the characters used in option strings (same Unicode database)",
     "the ssh pipe is a reliable ordered byte stream",
 ]
 
@@ -514,7 +515,10 @@ def run_e2e(case, scratch, rng_sizes=None):
     stream = content + obs['frames'] + b'\n' + case.get('junk', b'')
     obs['stream'] = stream
     code_names = {n for n, _d, _v in case['modules'] if n in ('sshuttle.server', 'sshuttle.cmdline_options')}
-    obs['remote'] = remote_run(stream, len(content), size_policy(rs, case['policy']), case['bufsize'],
+    policy = case['policy']
+    if policy in ('one', 2, 7) and len(stream) > 20000:
+        policy = 4096       # the list-based model re-copies its buffer per raw read: keep long streams coarse
+    obs['remote'] = remote_run(stream, len(content), size_policy(rs, policy), case['bufsize'],
                                code_names, case.get('pre', ()))
     return obs
 
@@ -571,11 +575,21 @@ def main_arg_keys():
 
 
 def packaged_names():
-    """names and order ssh.connect packages, observed by a dry run of the real connect"""
-    obs = run_connect(dict(files={}, options=[('latency_control', True)]), None, dry=True)
-    writes = [d for k, d in obs['events'] if k == 'w']
-    _asm, mods, _rest = independent_parse(writes[0] + writes[1], len(writes[0]))
-    return [n for n, _d in mods]
+    """names and order ssh.connect packages: the `empackage(z, '<name>'…)` calls of `content2`, read
+    from the source (the upload itself may be unparseable when the packaging is broken)"""
+    import ast
+    with open(os.path.join(common.REPO, 'sshuttle', 'ssh.py'), 'rb') as f:
+        tree = ast.parse(f.read())
+    out = []
+    for fn in ast.walk(tree):
+        if isinstance(fn, ast.FunctionDef) and fn.name == 'connect':
+            for n in ast.walk(fn):
+                if isinstance(n, ast.Assign) and isinstance(n.targets[0], ast.Name) and n.targets[0].id == 'content2':
+                    cs = [c for c in ast.walk(n.value) if isinstance(c, ast.Call) and
+                          isinstance(c.func, ast.Name) and c.func.id == 'empackage']
+                    cs.sort(key=lambda c: (c.lineno, c.col_offset))
+                    out = [ast.literal_eval(c.args[1]) for c in cs]
+    return out
 
 
 def e2e_case(ctx, rng, scratch, names, keys, thorough_big=False):
@@ -1139,7 +1153,7 @@ def main_check(ctx, case, events, outcome, got, log):
     elif outcome == 'fatal' and len(writes) > 2:
         bad = 'write after a failed handshake'
     if bad:
-        ctx.violation('C18:order:write-before-sync', case=dict(stream='main', **case),
+        ctx.violation('C18:order:write-before-sync', case=dict(case, stream='main'),
                       expected='writes before sync = [content, content2] only', observed=bad, kind='ops')
 
 
@@ -1161,7 +1175,9 @@ SUB_SERVER = (b"import sys, json\nimport sshuttle\n"
               b"    sys.stdout.flush()\n")
 
 
-def subprocess_case(ctx, rng, scratch, names, keys):
+def subprocess_case(ctx, sub_seed, scratch, names, keys):
+    import random as _random
+    rng = _random.Random(sub_seed)        # the case is a function of this seed alone (replayable)
     ssh = _mods()[0]
     files = {}
     real_dir = os.path.join(common.REPO, 'sshuttle')
@@ -1198,16 +1214,19 @@ def subprocess_case(ctx, rng, scratch, names, keys):
     p = None
     out = b''
     try:
-        p, rfile, wfile = ssh.connect(None, None, None, subprocess.DEVNULL, False, None, dict(opts))
-        rfile._sock.settimeout(120)
-        while True:
-            c = rfile.read(65536)
-            if not c:
-                break
-            out += c
-        rfile.close()
-        wfile.close()
-        p.wait(timeout=60)
+        try:
+            p, rfile, wfile = ssh.connect(None, None, None, subprocess.DEVNULL, False, None, dict(opts))
+            rfile._sock.settimeout(120)
+            while True:
+                c = rfile.read(65536)
+                if not c:
+                    break
+                out += c
+            rfile.close()
+            wfile.close()
+            p.wait(timeout=60)
+        except (OSError, UnicodeError) as e:
+            out += b'<%s>' % type(e).__name__.encode()
     finally:
         ssh.importlib = old
         sys.stderr = old_err
@@ -1215,7 +1234,8 @@ def subprocess_case(ctx, rng, scratch, names, keys):
             p.kill()
     ctx.count()
     ctx.hist('subprocess')
-    case = dict(stream='subprocess', files={n: hexb(d) if len(d) < 4096 else 'sha256:' + hashlib.sha256(d).hexdigest() for n, d in files.items()},
+    case = dict(stream='subprocess', sub_seed=sub_seed,
+                files={n: hexb(d) if len(d) < 4096 else 'sha256:' + hashlib.sha256(d).hexdigest() for n, d in files.items()},
                 options=[[k, v] for k, v in opts])
     if not out.startswith(b'\0\0SSHUTTLE0001'):
         ctx.violation('C18:subprocess:no-sync', case=case, expected='sync string then report', observed=repr(out[:80]), kind='input')
@@ -1373,9 +1393,9 @@ def run(ctx):
             ctx.count()
         if ctx.thorough:
             for _ in range(12 * ctx.boost):
-                subprocess_case(ctx, rng, scratch, names, keys)
+                subprocess_case(ctx, rng.randrange(1 << 30), scratch, names, keys)
         else:
-            subprocess_case(ctx, rng, scratch, names, keys)
+            subprocess_case(ctx, rng.randrange(1 << 30), scratch, names, keys)
     finally:
         scratch.close()
     for lg in logs:
@@ -1416,7 +1436,9 @@ def replay(ctx, rep):
             main_check(ctx, case, ev, outcome, got, lg)
             return bool(ctx.violations), 'trace: %s' % lg.outs[0][:300]
         if st == 'subprocess':
-            return True, 'subprocess cases are regenerated from the seed: run ./check C18 --tier thorough'
+            subprocess_case(ctx, case['sub_seed'], scratch, packaged_names(), main_arg_keys())
+            return bool(ctx.violations), '; '.join('%s: %s' % (v['key'], str(v['observed'])[:120]) for v in ctx.violations) or \
+                'the child interpreter reported the client\'s sources and options'
     finally:
         scratch.close()
     return True, 'unknown replay kind'
